@@ -7,15 +7,24 @@ import re
 import lib, pipe
 from props import generic
 
-SORT = re.compile(r"(func_entry|func_exit)=\[([^\]]*)\]")
+ENTRY = re.compile(r"func_entry=\[([^\]]*)\] func_exit=\[([^\]]*)\]")
 
 
 def canon(line):
+    """the functions of a node are a hash set: the dump lists them in hash order, as two PARALLEL lists (entry i and exit i
+    belong to the same function).  Canonical form: the list of (entry, exit) pairs, sorted as pairs - never each list alone."""
     line = lib._PICKS.sub("", line)
     line = re.sub(r"RT=\w+", "", line)
     line = " ".join(line.split())
-    line = SORT.sub(lambda m: "%s=[%s]" % (m.group(1), ",".join(sorted(m.group(2).split(","), key=lambda x: int(x[1:]) if x else 0))), line)
-    return line
+
+    def pairs(m):
+        a, b = m.group(1).split(",") if m.group(1) else [], m.group(2).split(",") if m.group(2) else []
+        if len(a) != len(b):
+            return m.group(0)
+        key = lambda x: int(x[1:]) if x[1:].lstrip("-").isdigit() else 0
+        ps = sorted(zip(a, b), key=lambda p: (key(p[0]), key(p[1])))
+        return "func_entry=[%s] func_exit=[%s]" % (",".join(p[0] for p in ps), ",".join(p[1] for p in ps))
+    return ENTRY.sub(pairs, line)
 
 
 def run(ctx):
